@@ -4,7 +4,10 @@ import (
 	"crypto/x509"
 	"crypto/x509/pkix"
 	"encoding/asn1"
+	"encoding/base64"
 	"encoding/binary"
+	"encoding/hex"
+	"encoding/pem"
 	"fmt"
 	"os"
 	"path/filepath"
@@ -216,6 +219,16 @@ func c10Responses(t *core.Tape, w *world.World) []struct {
 		{"truncated-genuine", w.PCS.QE.Body[:len(w.PCS.QE.Body)/2]},
 		{"der-not-json", w.RootCrlDER},
 		{"cert-der", w.A.Root.DER},
+		// other encodings a CRL endpoint (or a proxy in front of it) may answer with
+		{"crl-pem", pem.EncodeToMemory(&pem.Block{Type: "X509 CRL", Bytes: w.RootCrlDER})},
+		{"crl-pem-cut", pem.EncodeToMemory(&pem.Block{Type: "X509 CRL", Bytes: w.RootCrlDER})[:120]},
+		{"crl-pem-begin-line-only", []byte("-----BEGIN X509 CRL-----\n")},
+		{"crl-pem-begin-without-newline", []byte("-----BEGIN ")},
+		{"crl-pem-certificates-then-crl", append(append([]byte(nil), w.A.Root.PEM()...), pem.EncodeToMemory(&pem.Block{Type: "X509 CRL", Bytes: w.RootCrlDER})...)},
+		{"crl-pem-other-block-only", w.A.Root.PEM()},
+		{"crl-hex", []byte(hex.EncodeToString(w.RootCrlDER))},
+		{"crl-hex-odd", []byte(hex.EncodeToString(w.RootCrlDER)[:101])},
+		{"crl-base64", []byte(base64.StdEncoding.EncodeToString(w.RootCrlDER))},
 	}
 	return list
 }
@@ -300,6 +313,44 @@ func c10Extensions(t *core.Tape, w *world.World) []struct {
 		}()},
 		{"indefinite-length", []byte{0x30, 0x80, 0x30, 0x80, 0x00, 0x00, 0x00, 0x00}},
 		{"length-overflow", []byte{0x30, 0x84, 0xff, 0xff, 0xff, 0xff, 0x01}},
+	}
+	// the elements a platform certificate carries beyond the four the verifier needs (SGX type, platform instance
+	// id, configuration with its three flags): each with a degenerate value of every primitive kind — a parser
+	// that starts to read them must survive them
+	enum := func(v byte) []byte { return []byte{0x0a, 0x01, v} }
+	flags := seq(seq(oid(7, 1), m(true)), seq(oid(7, 2), m(false)), seq(oid(7, 3), m(true)))
+	plat := func(e5, e6, e7 []byte) []byte {
+		return seq(seq(oid(1), m(make([]byte, 16))), seq(oid(2), seq(full...)), seq(oid(3), m(make([]byte, 2))), seq(oid(4), m(make([]byte, 6))),
+			seq(oid(5), e5), seq(oid(6), e6), seq(oid(7), e7))
+	}
+	odd := []struct {
+		n string
+		v []byte
+	}{{"empty-enumerated", []byte{0x0a, 0x00}}, {"empty-integer", []byte{0x02, 0x00}}, {"empty-octets", []byte{0x04, 0x00}}, {"null", []byte{0x05, 0x00}},
+		{"empty-sequence", []byte{0x30, 0x00}}, {"empty-boolean", []byte{0x01, 0x00}}, {"two-byte-boolean", []byte{0x01, 0x02, 0xff, 0xff}}, {"huge-enumerated", append([]byte{0x0a, 0x09}, make([]byte, 9)...)},
+		{"negative-enumerated", []byte{0x0a, 0x01, 0x80}}, {"context-tag", []byte{0x80, 0x00}}, {"empty-oid", []byte{0x06, 0x00}}}
+	list = append(list, struct {
+		name string
+		der  []byte
+	}{"platform-7-elements-wellformed", plat(enum(1), m(make([]byte, 16)), flags)})
+	for _, o := range odd {
+		list = append(list,
+			struct {
+				name string
+				der  []byte
+			}{"sgx-type-" + o.n, plat(o.v, m(make([]byte, 16)), flags)},
+			struct {
+				name string
+				der  []byte
+			}{"platform-instance-" + o.n, plat(enum(1), o.v, flags)},
+			struct {
+				name string
+				der  []byte
+			}{"configuration-" + o.n, plat(enum(1), m(make([]byte, 16)), o.v)},
+			struct {
+				name string
+				der  []byte
+			}{"configuration-flag-" + o.n, plat(enum(1), m(make([]byte, 16)), seq(seq(oid(7, 1), o.v), seq(oid(7, 2), m(false)), seq(oid(7, 3), o.v)))})
 	}
 	return list
 }
